@@ -1,82 +1,103 @@
 """C11 (static-traits half): compare the compile-time sender traits of generated K2 expressions
-(sender_traits<S>::blocking / ::sends_done / ::is_always_scheduler_affine of the real headers, printed
-by the generated TU on input `T i`) with the Gallina mirror of the headers' formulas
-(coq/Calc/TraitsDefs.v, model handler `calc_traits`), plus the run-time blocking() answer."""
+(sender_traits<S>::blocking / ::sends_done / ::is_always_scheduler_affine of the real headers) and the
+run-time unifex::blocking(s) answer, printed by a generated TU on input `T i` (k2::traits_of), with
+the Gallina mirror of the headers' formulas (coq/Calc/TraitsDefs.v, model handler `calc_traits`)."""
 import hashlib, os, random, re
 import vlib, k2
 
 BK = {0: "always_inline", 1: "always", 2: "maybe", 3: "never"}
-# ---- which expressions may be asked for their RUN-TIME blocking() ------------------------------------
-# unifex::blocking(s) is ill-formed for let_value / let_error / finally senders (let_value.hpp:429,
-# let_error.hpp:439, finally.hpp:693-694: the unqualified `blocking(..)` names the class's static data
-# member) and recurses forever for let_done (let_done.hpp:331, hence done_as_optional too).  then /
-# with_query_value / materialize / stop_when forward to their children; upon_error / upon_done /
-# unstoppable / sequence / when_all spell the customisation `tag_t<blocking>` (the member again), so it
-# never matches and the CPO answers with the static value.
-def rt_ok(e):
-    k = e[0]
-    if k in ("just", "jerr", "jdone", "var", "leaf", "leafn", "uerr", "udone", "unstop", "seq", "wall"):
-        return True
-    if k in ("then", "mat"): return rt_ok(e[-1])
-    if k == "withq": return rt_ok(e[3])
-    if k == "swhen": return rt_ok(e[1]) and rt_ok(e[2])
-    return False          # letv lete letd fin dopt
+_RX = re.compile(r"^blocking=(-?\d+) sends_done=([01]) affine=([01]) rt_blocking=(-?\d+)$")
 
 
-def emit_tu(cases, with_rt=True):
-    """traits-only TU (own main; does not use k2::traits_of, whose unconditional unifex::blocking(s)
-    does not compile for the senders listed above).  Input lines `T i`, output as k2::traits_of;
-    rt_blocking=-1 = not evaluated."""
-    src = ['#include "k2.hpp"', "",
-           "template <bool WithRt, typename Mk> static std::string traits_line(Mk mk) {",
-           "  using S = decltype(mk()); auto s = mk(); int rt = -1;",
-           "  if constexpr (WithRt) rt = (int)unifex::blocking(s).value;",
-           "  char buf[160];",
-           '  std::snprintf(buf, sizeof buf, "blocking=%d sends_done=%d affine=%d rt_blocking=%d",',
-           "                (int)unifex::sender_traits<S>::blocking.value, (int)unifex::sender_traits<S>::sends_done,",
-           "                (int)unifex::sender_traits<S>::is_always_scheduler_affine, rt);",
-           "  return buf;", "}"]
+def emit_tu(cases):
+    """traits-only TU (quick to compile: no run_case instantiations); same `T i` protocol and the same
+    k2::traits_of as the TUs of k2.emit_tu, so check_traits accepts either kind of executable."""
+    src = ['#include "k2.hpp"', ""]
     for i, e in enumerate(cases):
-        src.append("static std::string traits_%d() { return traits_line<%s>([] { return %s; }); }"
-                   % (i, "true" if with_rt and rt_ok(e) else "false", k2.to_cpp(e)))
+        src.append("static std::string traits_%d() { return k2::traits_of([] { return %s; }); }" % (i, k2.to_cpp(e)))
     src.append("static k2::traits_fn TRAITS[] = {%s};" % ", ".join("traits_%d" % i for i in range(len(cases))))
-    src.append("int main() { std::string l; while (std::getline(std::cin, l)) { std::istringstream is(l); char t; int i = -1; is >> t >> i;")
-    src.append('    std::cout << ((t == \'T\' && i >= 0 && i < %d) ? TRAITS[i]() : std::string("ERR")) << "\\n"; } return 0; }' % len(cases))
+    src.append("static k2::case_fn CASES[%d] = {};" % max(1, len(cases)))
+    src.append("int main() { return k2::main_loop(CASES, %d, TRAITS); }" % len(cases))
     return "\n".join(src) + "\n"
-
-
-_RX_I = re.compile(r"^blocking=(-?\d+) sends_done=([01]) affine=([01]) rt_blocking=(-?\d+)$")
-_RX_M = re.compile(r"^blocking=(-?\d+) sends_done=([01]) affine=([01])$")
 
 
 def kinds_of(e):
     return "+".join(sorted(set(re.findall(r"\((\w+)", k2.to_model(e))) & set(k2.UN + k2.BIN))) or "leaf"
 
 
-def check_traits(chk, exe, cases):
+def monitor_traits(chk, exe, cases, declared, scripts_per_case=6):
+    """Direct monitor of C11 on the real code (exe must be a full k2.emit_tu TU): with the traits the
+    HEADERS declare (declared[i] = (blocking, sends_done)), a sender declaring always_inline/always
+    must have completed its receiver when start() returns (script = start only, stopped or not), one
+    declaring never must not have, one declaring sends_done=false never completes with done."""
+    stats = chk.cov["k2traits"]
+    rng = random.Random(chk.seed * 31 + len(cases))
+    lines, meta = [], []
+    for i, e in enumerate(cases):
+        if declared[i] is None:
+            continue
+        bl, sd = declared[i]
+        scripts = [(0, ""), (1, "")]
+        if not sd:
+            scripts += k2.gen_scripts(rng, e, scripts_per_case)
+        for pre, sc in scripts:
+            lines.append("%d %d | %s" % (i, pre, sc))
+            meta.append((i, e, bl, sd, pre, sc))
+    out = vlib.run_impl_lines(exe, lines, chunk=400)
+    for (i, e, bl, sd, pre, sc), io, il in zip(meta, out, lines):
+        stats["monitored_runs"] = stats.get("monitored_runs", 0) + 1
+        bad = ""
+        if io.startswith("CRASH"):
+            bad = "crash: " + io[:160]
+        elif sc == "" and bl in (0, 1) and "root " not in io:
+            bad = "declares blocking=%s but start() returned without completing the receiver" % BK[bl]
+        elif sc == "" and bl == 3 and "root " in io:
+            bad = "declares blocking=never but completed the receiver inside start()"
+        elif not sd and "root done" in io:
+            bad = "declares sends_done=false but completed with set_done"
+        if sc == "" and bl in (0, 1):
+            stats["inline_completions_observed"] = stats.get("inline_completions_observed", 0) + 1
+        if not sd and "root " in io:
+            stats["nodone_completions_observed"] = stats.get("nodone_completions_observed", 0) + 1
+        chk.count(("traits-run", k2.to_model(e), pre, sc), bl in (0, 1) or not sd)
+        if bad:
+            rec = {"kind": "k2traits-monitor", "expr": k2.to_model(e), "cpp": k2.to_cpp(e), "prestop": pre, "script": sc,
+                   "impl": io, "monitor": bad, "replay": "echo '%s' | %s" % (il, exe)}
+            rp = chk.replay_file("k2traitsmon_%s" % hashlib.sha256((k2.to_model(e) + sc).encode()).hexdigest()[:10], rec)
+            chk.violation("k2/traits/monitor/%s" % kinds_of(e), rp,
+                          text="%s | pre=%d %s | %s | impl=%s" % (k2.to_model(e), pre, sc, bad, io[:160]))
+
+
+def check_traits(chk, exe, cases, monitor=False):
     """cases: python ASTs (k2.Gen) in the order they were emitted into the TU `exe`.
-    Returns stats; every disagreement is reported through chk.violation."""
+    Returns stats; every disagreement is reported through chk.violation.
+    monitor=True (exe built from k2.emit_tu, i.e. with the runnable cases): additionally run the
+    cases and check the declared traits against the observed behaviour (monitor_traits)."""
     stats = chk.cov.setdefault("k2traits", {"expressions": 0, "agree": 0, "mismatch": 0, "rt_refined": 0,
-                                             "blocking_hist": {}, "sends_done_false": 0, "affine_true": 0})
+                                             "blocking_hist": {}, "sends_done_false": 0, "affine_true": 0,
+                                             "kinds": {}})
     iout = vlib.run_impl_lines(exe, ["T %d" % i for i in range(len(cases))])
     mout = vlib.model_run(["calc_traits " + k2.to_model(e) for e in cases])
+    declared = [None] * len(cases)
     for i, (e, io, mo) in enumerate(zip(cases, iout, mout)):
         stats["expressions"] += 1
-        mi, mm = _RX_I.match(io.strip()), _RX_M.match(mo.strip())
+        for k in re.findall(r"\((\w+)", k2.to_model(e)):
+            stats["kinds"][k] = stats["kinds"].get(k, 0) + 1
+        mi, mm = _RX.match(io.strip()), _RX.match(mo.strip())
         bad = []
         if not mi or not mm:
             bad.append("unparsable output")
         else:
             ib, isd, iaf, irt = (int(x) for x in mi.groups())
-            mb, msd, maf = (int(x) for x in mm.groups())
+            mb, msd, maf, mrt = (int(x) for x in mm.groups())
+            declared[i] = (ib, isd)
             if ib != mb: bad.append("blocking: headers %s, mirror %s" % (BK.get(ib, ib), BK.get(mb, mb)))
             if isd != msd: bad.append("sends_done: headers %d, mirror %d" % (isd, msd))
             if iaf != maf: bad.append("is_always_scheduler_affine: headers %d, mirror %d" % (iaf, maf))
-            if irt < 0:
-                stats["rt_not_evaluated"] = stats.get("rt_not_evaluated", 0) + 1
-            elif ib != 2 and irt != ib:
+            if irt != mrt: bad.append("run-time blocking(): headers %s, mirror %s" % (BK.get(irt, irt), BK.get(mrt, mrt)))
+            if ib != 2 and irt != ib:      # the run-time answer may only refine `maybe`
                 bad.append("run-time blocking() %s differs from compile-time %s" % (BK.get(irt, irt), BK.get(ib, ib)))
-            if ib == 2 and irt >= 0 and irt != 2:
+            if ib == 2 and irt != 2:
                 stats["rt_refined"] += 1
             stats["blocking_hist"][BK.get(ib, str(ib))] = stats["blocking_hist"].get(BK.get(ib, str(ib)), 0) + 1
             stats["sends_done_false"] += 1 - isd
@@ -90,21 +111,25 @@ def check_traits(chk, exe, cases):
         chk.cov["disagreements_checked"] += 1
         rec = {"kind": "k2traits", "expr": k2.to_model(e), "cpp": k2.to_cpp(e), "impl": io, "model": mo,
                "disagreement": bad,
-               "obligation": "CalcTraits.traits_of mirrors sender_traits<S> of the emitted expression",
+               "obligation": "CalcTraits.traits_of / rt_blocking_of mirror sender_traits<S> / unifex::blocking(s) of the emitted expression",
                "replay": "echo 'T %d' | %s   # and: echo 'calc_traits %s' | ocaml/_build/driver" % (i, exe, k2.to_model(e))}
         rp = chk.replay_file("k2traits_%s" % hashlib.sha256(k2.to_model(e).encode()).hexdigest()[:10], rec)
         chk.violation("k2/traits/%s" % kinds_of(e), rp, no_input=True,
                       text="%s | %s | impl=%s | model=%s" % (k2.to_model(e), "; ".join(bad), io[:120], mo[:120]))
+    if monitor:
+        monitor_traits(chk, exe, cases, declared)
     return stats
 
 
-def run_traits(chk, n_tus, cases_per_tu, size_range=(1, 8), cfg="plain17", tag="k2t", corpus=None):
-    """Generate expressions (plus k2.CORPUS), emit + build TUs, check the traits of every case."""
+def run_traits(chk, n_tus, cases_per_tu, size_range=(1, 8), cfg="plain17", tag="k2t", corpus=None, monitor=False):
+    """Generate expressions (plus k2.CORPUS), emit + build TUs, check every case.
+    monitor=False: traits-only TUs (fast to compile); monitor=True: full k2 TUs, cases also run."""
     rng = random.Random(chk.seed * 104729 + 11)
     tus = []
     for _ in range(n_tus):
         # leafless expressions (all-inline) exercise the always_inline / sends_done=false / affine formulas
-        tus.append([k2.Gen(rng, max_leaves=rng.choice((0, 0, 1, 4))).expr(rng.randint(*size_range)) for _ in range(cases_per_tu)])
+        tus.append([k2.Gen(rng, max_leaves=rng.choice((0, 0, 1, 4))).expr(rng.randint(*size_range))
+                    for _ in range(cases_per_tu)])
     corpus = k2.CORPUS if corpus is None else corpus
     if corpus:
         tus = [corpus[i:i + cases_per_tu] for i in range(0, len(corpus), cases_per_tu)] + tus
@@ -112,14 +137,14 @@ def run_traits(chk, n_tus, cases_per_tu, size_range=(1, 8), cfg="plain17", tag="
     os.makedirs(gen_dir, exist_ok=True)
     jobs = []
     for cases in tus:
-        src = emit_tu(cases)
+        src = k2.emit_tu(cases) if monitor else emit_tu(cases)
         h = hashlib.sha256(src.encode()).hexdigest()[:12]
         p = os.path.join(gen_dir, "%s_%s.cpp" % (tag, h))
         if not os.path.exists(p):
             open(p, "w").write(src)
         jobs.append(("%s_%s" % (tag, h), cfg, p, "", True))
     built = vlib.build_many(jobs)
-    stats = None
+    stats = chk.cov.get("k2traits")
     for (name, cfgn, p, _, _), cases in zip(jobs, tus):
         exe, err = built[(name, cfgn)]
         if err:
@@ -128,5 +153,5 @@ def run_traits(chk, n_tus, cases_per_tu, size_range=(1, 8), cfg="plain17", tag="
             chk.violation("k2/traits/build", rp, no_input=True,
                           text="generated TU does not compile against /repo: " + err[-300:].replace("\n", " "))
             continue
-        stats = check_traits(chk, exe, cases)
+        stats = check_traits(chk, exe, cases, monitor=monitor)
     return stats
